@@ -256,7 +256,10 @@ CLAIMED = {
         "number of chains of any length) ends done in the real renamer model for every file list, strategy and scripted answers, "
         "and under stop reports exactly the planned renames: the first pass defers exactly the files whose destination exists, "
         "the second pass pops them in reverse and finds each destination vacated (semantic invariant Moved on the dry-run state, "
-        "one step lemma move_step for both passes, transfer through the C05 simulation). Partial: plans mixing both directions, "
+        "one step lemma move_step for both passes, transfer through the C05 simulation). The first sentence for EVERY plan, at the "
+        "level of paths (C02Paths.lean, stop_success_paths): for pairwise different existing entries and any plan of name-mode shape, if the run "
+        "under stop ends done then a path exists in the final tree iff it is the generated path of a file whose name changes, or it "
+        "existed initially and is not the path of such a file (via the closed form of a valid report, C05Closed.lean). Partial: plans mixing both directions, "
         "cycles, path and directory "
         "mode and trees with symbolic links are NOT covered by these theorems; they are decided by the oracle on every "
         "function from <=3 (quick) / <=4 (thorough) files into a name universe in every order "
